@@ -9,9 +9,13 @@ CFG = {'assumptions': ["64*len(words) < 2^31 (Go's int32 positions cannot overfl
  'go': {'bitmap.IndexSelect32': 'bitmap.IndexSelect32',
         'bitmap.IndexSelect32/held': 'bitmap.IndexSelect32(ws), then index builds on a decoy, then the first index is '
                                      'read out',
+        'bitmap.IndexSelect32/rle': 'bitmap.IndexSelect32 on the expanded run-length encoded bitmap (index rendered as '
+                                    'run-length encoded first differences)',
         'bitmap.IndexSelect32R64': 'bitmap.IndexSelect32R64',
         'bitmap.IndexSelect32R64/held': 'bitmap.IndexSelect32R64(ws), then index builds on a decoy, then the first '
                                         'indexes are read out',
+        'bitmap.IndexSelect32R64/rle': 'select index of bitmap.IndexSelect32R64 on the expanded run-length encoded '
+                                       'bitmap',
         'bitmap.NextOne/Rank64': 'bitmap.NextOne(ws, p, 64*len) beside bitmap.Select32 of bitmap.Rank64(ws, '
                                  'IndexRank64(ws,true), p) (or -1 when that rank is the total)',
         'bitmap.PrevOne/Select32': 'bitmap.IndexSelect32 + bitmap.Select32, then bitmap.PrevOne(ws, 0, a) up to the '
@@ -28,6 +32,7 @@ CFG = {'assumptions': ["64*len(words) < 2^31 (Go's int32 positions cannot overfl
                                   'bitmap.Select32 of that rank',
         'bitmap.Select32/ToArray': 'bitmap.ToArray + bitmap.IndexSelect32 + bitmap.Select32 for every i < len(ToArray)',
         'bitmap.Select32/held': 'bitmap.IndexSelect32(ws), index builds on a decoy, bitmap.Select32 twice',
+        'bitmap.Select32/rle': 'bitmap.IndexSelect32 + bitmap.Select32 on the expanded run-length encoded bitmap',
         'bitmap.Select32R64': 'bitmap.IndexSelect32R64 + bitmap.Select32R64',
         'bitmap.Select32R64/NextOne': 'bitmap.IndexSelect32R64 + bitmap.Select32R64, then bitmap.NextOne(ws, a+1, '
                                       '64*len)',
@@ -35,7 +40,9 @@ CFG = {'assumptions': ["64*len(words) < 2^31 (Go's int32 positions cannot overfl
                                       'bitmap.Select32R64 of that rank',
         'bitmap.Select32R64/ToArray': 'bitmap.ToArray + bitmap.IndexSelect32R64 + bitmap.Select32R64 for every i < '
                                       'len(ToArray)',
-        'bitmap.Select32R64/held': 'bitmap.IndexSelect32R64(ws), index builds on a decoy, bitmap.Select32R64 twice'},
+        'bitmap.Select32R64/held': 'bitmap.IndexSelect32R64(ws), index builds on a decoy, bitmap.Select32R64 twice',
+        'bitmap.Select32R64/rle': 'bitmap.IndexSelect32R64 + bitmap.Select32R64 on the expanded run-length encoded '
+                                  'bitmap'},
  'rule': 'cases = corpus + held-index cases over ascending word counts 1..70 (index built, decoy indexes built, then '
          'the first index queried twice; inputs compared before/after) + exhaustive sweeps (every non-zero byte at '
          'byte positions of a one-word bitmap and as upper byte of a 16-bit quarter x all i = select8Lookup through '
@@ -64,4 +71,9 @@ CFG = {'assumptions': ["64*len(words) < 2^31 (Go's int32 positions cannot overfl
          'run and ascending: bitmaps with exactly n 1-bits for ceil(n/32) in {1,2,3,4,8,16,32,64,128,256} and one '
          'checkpoint either side (n = 32c and 32(c-1)+1; dense and strided layouts), index built, indexes of an '
          'all-ones decoy with the same number of checkpoints built, then Select32/Select32R64 at 0, n/2, n-1 with the '
-         'FIRST index and both index slices read out after the decoy build'}
+         'FIRST index and both index slices read out after the decoy build. Very large bitmaps, run-length encoded '
+         '[[count, word], ...]: 32767, 32768, 32769, 40000, 65535, 65536, 65537 words (+140000 thorough) x {dense, one '
+         'bit per word, 1-bits behind a long empty run, islands between long empty runs}; index ops and selects at 0, '
+         'the last two 1-bits, the last checkpoint, 1-bit counts 2^15 / 2^16 / 2^20 and one below, the 1-bits of words '
+         '2^15+-1 and 2^16+-1, random; judged by the linear-time lin_Select / lin_IndexSelect32 proved equal to the '
+         'model (C02_rle_run_is_model_*); key = (family, words)'}
